@@ -1019,6 +1019,11 @@ def itertab(ctx, pid):
         for op, l, r in q.rels:
             if l == t and r == NONE and op in ("is", "isnot", "==", "!="):
                 return op in ("is", "==")
+        tv = q.truth.get(t)
+        if tv is True:
+            return False  # truthy: certainly not None
+        if tv is False:
+            raise Mismatch("`%s` is tested for truth where `is None` is meant: an empty but valid value (the empty key `()` / b'') is treated like None" % tstr(t)[:60])
         raise Undecided(what)
 
     def ref_next_key(q):
